@@ -77,6 +77,7 @@ def run_module(mod, tier, seed, budget_s, replay=None):
          'violations': [], 'bounds': getattr(mod, 'BOUNDS', ''),
          'exhaustive': False, 'errors': []}
   seen = set()
+  per_sig = {}
   t0 = time.time()
   if replay is not None:
     it = [replay]
@@ -114,11 +115,15 @@ def run_module(mod, tier, seed, budget_s, replay=None):
     for f in fails:
       f = dict(f)
       f['case'] = case
-      out['violations'].append(f)
-    if len(out['violations']) >= 20:
+      sig = (f.get('clause'), f.get('signature'))
+      per_sig[sig] = per_sig.get(sig, 0) + 1
+      if per_sig[sig] <= 2:          # keep at most two examples per kind
+        out['violations'].append(f)
+    if len(per_sig) >= 60:           # too many different kinds: stop early
       exhausted = False
       break
   out['exhaustive'] = bool(exhausted and getattr(mod, 'EXHAUSTIVE', {}).get(tier, False))
+  out['violation_kinds'] = {'%s | %s' % k: n for k, n in per_sig.items()}
   out['wall_s'] = round(time.time() - t0, 2)
   reset()
   return out
